@@ -33,6 +33,10 @@ type Case struct {
 	// consumer: lal announces the audio configuration once, in the session description (C02's registered finding
 	// R1/sdp-audio-config/first-config-after-mid-stream-change); the TS legs must follow the change.
 	AscChange bool `json:"asc_change,omitempty"`
+	// LateTrack k > 0: the stream shows a single track for its first k-1 messages (metadata and sequence headers
+	// count); the second track's first message (its sequence header, or its first frame for Opus / G.711) is the
+	// k-th, 2 <= k <= 16, i.e. still inside lal's 16-message probe window: PMT and SDP must announce both tracks.
+	LateTrack int `json:"late_track,omitempty"`
 	// AscExt selects the bytes that follow the 2-byte head of the AudioSpecificConfig (see ascBytes).
 	AscExt int `json:"asc_ext,omitempty"`
 }
@@ -283,8 +287,10 @@ func genStartTs(t *rapid.T) uint32 {
 	switch rapid.IntRange(0, 9).Draw(t, "startClass") {
 	case 0, 1, 2:
 		return 0
-	case 3, 4, 5:
+	case 3, 4:
 		return rapid.Uint32Range(1, 5000).Draw(t, "startSmall")
+	case 5:
+		return rapid.SampledFrom([]uint32{5000, 1000, 0x7FFFFF00, 0x80000100, 3600000}).Draw(t, "startBase")
 	case 6:
 		return rapid.Uint32Range(0xFFFFF0, 0x1000010).Draw(t, "startExt") // extended-timestamp edge
 	case 7:
@@ -361,14 +367,21 @@ func genCase(t *rapid.T) Case {
 		start = uint32(1<<32 - uint64(rapid.Uint32Range(1, 400).Draw(t, "msBeforeWrap")))
 	}
 	variant := rapid.IntRange(0, 2).Draw(t, "variant")
+	// second track appearing late, but inside the probe window
+	late, lateVideo := 0, false
+	if cd.Video != "" && cd.Audio != "" && rapid.IntRange(0, 4).Draw(t, "lateTrack") == 0 {
+		late = rapid.SampledFrom([]int{16, 16, 16, 15, 15, 14, 16, 15, 16, 15, 2, 3, 4, 5, 6, 7, 8, 9, 10, 11, 12, 13, 14, 15, 16}).Draw(t, "lateAt")
+		lateVideo = rapid.IntRange(0, 2).Draw(t, "lateVideo") == 0
+		c.AscChange = false
+	}
 	var pro []gen.Item
 	if rapid.IntRange(0, 2).Draw(t, "hasMeta") != 0 {
 		pro = append(pro, gen.Item{Kind: "meta", Ts: 0, Variant: variant, Sdf: rapid.Bool().Draw(t, "sdf")})
 	}
-	if cd.Video != "" {
+	if cd.Video != "" && !(late > 0 && lateVideo) {
 		pro = append(pro, gen.Item{Kind: "vsh", Ts: start, Variant: variant})
 	}
-	if cd.Audio == "aac" {
+	if cd.Audio == "aac" && !(late > 0 && !lateVideo) {
 		pro = append(pro, gen.Item{Kind: "ash", Ts: start})
 	}
 	if len(pro) > 1 && rapid.IntRange(0, 2).Draw(t, "swapPrologue") == 0 {
@@ -381,9 +394,20 @@ func genCase(t *rapid.T) Case {
 	// first one of the batch): 21..23 -> 8, 32 -> 5, 64 -> 3, 128 -> 2, >150 -> 1, 10 -> 16
 	aStep := rapid.SampledFrom([]uint32{21, 23, 23, 26, 32, 43, 64, 75, 128, 150, 151, 160, 200, 10, 5, 0}).Draw(t, "aStep")
 	smallAudio := aStep < 20
+	// which track's clock is ahead at the start: lal rebases each track on its own first timestamp, so the first
+	// audio PES may lie below the video track's first dts and the other way round
 	vts, ats := start, start
+	videoLater := false
 	if cd.Video != "" && cd.Audio != "" {
-		ats += rapid.Uint32Range(0, 30).Draw(t, "audioLead")
+		switch rapid.IntRange(0, 3).Draw(t, "leadClass") {
+		case 1:
+			ats += rapid.Uint32Range(1, 30).Draw(t, "audioLead")
+		case 2:
+			ats += rapid.Uint32Range(1, 200).Draw(t, "audioLeadL")
+		case 3:
+			vts += rapid.Uint32Range(1, 200).Draw(t, "videoLead")
+			videoLater = true
+		}
 	}
 	// first timestamp actually published per track: lal's TS time base; later timestamps never drop below it
 	var vFirst, aFirst uint32
@@ -436,11 +460,43 @@ func genCase(t *rapid.T) Case {
 		}
 	}
 
-	if cd.Video != "" && cd.Audio != "" && rapid.IntRange(0, 3).Draw(t, "audioFirst") == 0 {
+	audioFirstOdds := 3
+	if videoLater {
+		audioFirstOdds = 1
+	}
+	switch {
+	case late > 0 && lateVideo:
+		// audio only until the video sequence header arrives as message number `late`
+		for len(items) < late-1 || nAudio == 0 {
+			emitAudio()
+		}
+		c.LateTrack = len(items) + 1
+		if serialLE(vts, ats) && !videoLater {
+			vts = ats // the video clock is the same clock
+		}
+		items = append(items, gen.Item{Kind: "vsh", Ts: vts, Variant: variant})
+	case late > 0:
+		// video only until audio starts (see startLateAudio)
+	case cd.Video != "" && cd.Audio != "" && rapid.IntRange(0, audioFirstOdds).Draw(t, "audioFirst") == 0:
 		n := rapid.IntRange(1, 3).Draw(t, "nAudioFirst")
 		for i := 0; i < n; i++ {
 			emitAudio()
 		}
+	}
+	lateAudioPending := late > 0 && !lateVideo
+	startLateAudio := func() {
+		lateAudioPending = false
+		c.LateTrack = len(items) + 1
+		if serialLE(ats, vts) {
+			ats = vts
+			if videoLater && nVideo > 0 {
+				ats = vts - rapid.Uint32Range(0, 20).Draw(t, "lateAudioBelow") // may lie below the next video frame
+			}
+		}
+		if cd.Audio == "aac" {
+			items = append(items, gen.Item{Kind: "ash", Ts: ats})
+		}
+		emitAudio()
 	}
 	if cd.Video == "" {
 		n := rapid.IntRange(1, 40).Draw(t, "nAudio")
@@ -453,8 +509,14 @@ func genCase(t *rapid.T) Case {
 		}
 	} else {
 		ngops := rapid.IntRange(1, 4).Draw(t, "ngops")
+		if lateAudioPending && ngops < 3 {
+			ngops = 3
+		}
 		for g := 0; g < ngops && nVideo < 36; g++ {
-			if g > 0 {
+			if lateAudioPending && len(items) >= late-1 && nVideo > 0 {
+				startLateAudio()
+			}
+			if g > 0 && !lateAudioPending {
 				// sequence headers sent again (a changed video header only changes which parameter sets lal re-inserts)
 				switch rapid.IntRange(0, 7).Draw(t, "reHeader") {
 				case 0:
@@ -469,7 +531,13 @@ func genCase(t *rapid.T) Case {
 				}
 			}
 			n := rapid.IntRange(1, 8).Draw(t, "gopLen")
+			if lateAudioPending && n < 6 {
+				n = 6
+			}
 			for f := 0; f < n; f++ {
+				if lateAudioPending && len(items) >= late-1 && nVideo > 0 {
+					startLateAudio()
+				}
 				key := f == 0
 				nals := genFrame(t, cd, key, &serial, b)
 				cts := uint32(0)
@@ -481,7 +549,7 @@ func genCase(t *rapid.T) Case {
 				}
 				items = append(items, gen.Item{Kind: "video", Ts: vts, Cts: cts, Key: key, Nals: nals, Variant: rapid.IntRange(0, 1).Draw(t, "framesX")})
 				nVideo++
-				if cd.Audio != "" {
+				if cd.Audio != "" && !lateAudioPending {
 					k := 0
 					if nAudio == 0 {
 						// every track starts within lal's 16-message probe window (the track set announced in the
@@ -500,11 +568,17 @@ func genCase(t *rapid.T) Case {
 				vts += vStep
 				jump()
 				// a changed AAC configuration, between GOPs or in the middle of one (and of an AAC batch)
-				if c.AscChange && rapid.IntRange(0, 6).Draw(t, "ascChurnV") == 0 {
+				if c.AscChange && nAudio > 0 && rapid.IntRange(0, 6).Draw(t, "ascChurnV") == 0 {
 					churnAsc(ats)
 				}
 			}
 		}
+	}
+	if lateAudioPending {
+		startLateAudio()
+	}
+	if c.LateTrack > 16 {
+		panic(pbt.HarnessError{Msg: fmt.Sprintf("generator: second track starts at message %d", c.LateTrack)})
 	}
 	if c.AscChange && ascChanges == 0 {
 		churnAsc(ats)
@@ -784,6 +858,36 @@ func classify(c Case) (bool, []string) {
 	}
 	if c.AscChange {
 		labels = append(labels, "asc-changes-mid-stream")
+	}
+	if c.LateTrack > 0 {
+		which := "audio"
+		if c.LateTrack-1 < len(c.Items) && c.Items[c.LateTrack-1].Kind == "vsh" {
+			which = "video"
+		}
+		labels = append(labels, fmt.Sprintf("second-track:%s-at-message-%d", which, c.LateTrack))
+	}
+	var fa, fv int64 = -1, -1
+	for _, it := range c.Items {
+		if it.Kind == "audio" && fa < 0 {
+			fa = int64(it.Ts)
+		}
+		if it.Kind == "video" && fv < 0 {
+			fv = int64(it.Ts)
+		}
+	}
+	if fa >= 0 && fv >= 0 && !c.Wrap {
+		base := "zero-base"
+		if fa > 0 && fv > 0 {
+			base = "nonzero-base"
+		}
+		switch {
+		case fa < fv:
+			labels = append(labels, "first-audio-below-first-video|"+base)
+		case fa > fv:
+			labels = append(labels, "first-audio-above-first-video|"+base)
+		default:
+			labels = append(labels, "first-audio-equals-first-video|"+base)
+		}
 	}
 	if cd.Audio == "aac" {
 		labels = append(labels, fmt.Sprintf("asc-bytes:%d", len(ascBytes(cd, c.AscExt))))
